@@ -242,6 +242,109 @@ def programs(rng=None, tier="quick"):
              [if_x("direct", "Loop", "Mul"), scan_x(0, 1, 1, 1, None, path="If[0]/then/Loop[0]")],
              steer=lambda a: "pred=%s,len=%d" % (bool(a[0]), len(a[2]))))
 
+    # ---- bodies with shape-carrying primitives whose static extents differ from the trip count ----
+    # (the trip count must come from len(xs) / the bounds / the predicate only, never from an extent found in
+    #  the body: scatter updates, gather index arrays, update slices, concatenate/pad, inner scans, reductions)
+    def xs_of(n):
+        return _a(np.arange(n) + 1)
+
+    def scan_scatter_add(xs, buf):      # scatter-add, updates extent 2
+        def body(c, x):
+            c = c.at[jnp.array([0, 2])].add(jnp.stack([x, x * 2.0]))
+            return c, c.sum()
+        return lax.scan(body, buf, xs)
+
+    def scan_scatter_set(xs, buf):      # scatter (set), updates extent 3, vector ys
+        def body(c, x):
+            c = c.at[jnp.array([1, 3, 0])].set(jnp.stack([x, x + 1.0, x * 2.0]))
+            return c, c * 2.0
+        return lax.scan(body, buf, xs)
+
+    def scan_scatter_mul(xs, buf):      # scatter-mul, updates extent 2
+        def body(c, x):
+            c = c.at[jnp.array([1, 3])].multiply(jnp.stack([x, x + 1.0]))
+            return c, c[0]
+        return lax.scan(body, buf, xs)
+
+    def scan_gather_idx(xs, tab):       # gather with an index array of extent 3
+        def body(c, x):
+            g = jnp.asarray(tab)[jnp.array([2, 0, 1])]
+            return c + jnp.sum(g) * x, g * x
+        return lax.scan(body, jnp.float32(0), xs)
+
+    def scan_dus(xs, buf):              # dynamic_update_slice with an update of extent 2
+        def body(c, x):
+            c = lax.dynamic_update_slice(c, jnp.stack([x, -x]), (jnp.int32(1),))
+            return c, jnp.sum(c)
+        return lax.scan(body, buf, xs)
+
+    def scan_concat_pad(xs, v):         # concatenate + pad inside the body (extents 3 and 6)
+        def body(c, x):
+            y = jnp.concatenate([c[1:], jnp.stack([x])])
+            return y, jnp.pad(y, (1, 2))
+        return lax.scan(body, v, xs)
+
+    def scan_inner_scan(xs, inner):     # nested scan of fixed length 3
+        def body(c, x):
+            return lax.scan(lambda d, e: (d + e * x, d * e), c, inner)
+        return lax.scan(body, jnp.float32(1.0), xs)
+
+    def scan_reduce(xs, m):             # reductions over axes of extent 3 and 2
+        def body(c, x):
+            r = jnp.sum(jnp.asarray(m) * x, axis=0)
+            return c + jnp.max(r), r
+        return lax.scan(body, jnp.float32(0), xs)
+
+    shapey = [
+        # name, fn, second operand, expectation builder (length -> expect list), static lengths
+        ("scan_scatter_add", scan_scatter_add, _a(np.zeros(4)), lambda L: [scan_x(1, 1, 1, 1, L)], (0, 1, 2, 5)),
+        ("scan_scatter_set", scan_scatter_set, _a(np.ones(4)), lambda L: [scan_x(1, 1, 1, 1, L)], (0, 1, 2, 5)),
+        ("scan_scatter_mul", scan_scatter_mul, _a(np.ones(4)), lambda L: [scan_x(1, 1, 1, 1, L)], (2, 5)),
+        ("scan_gather_idx", scan_gather_idx, _a([1, 2, 3, 4]), lambda L: [scan_x(2, 1, 1, 1, L)], (2, 5)),
+        ("scan_dus", scan_dus, _a(np.zeros(4)), lambda L: [scan_x(0, 1, 1, 1, L)], (2, 5)),
+        ("scan_concat_pad", scan_concat_pad, _a([7, 8, 9]), lambda L: [scan_x(0, 1, 1, 1, L)], (2, 5)),
+        ("scan_inner_scan", scan_inner_scan, _a([1, 2, 3]),
+         lambda L: [scan_x(1, 1, 1, 1, L), scan_x(1, 1, 1, 1, 3, path="Loop[0]/Loop[0]")], (2, 5)),
+        ("scan_reduce", scan_reduce, _a(np.arange(6).reshape(3, 2)), lambda L: [scan_x(1, 1, 1, 1, L)], (2, 5)),
+    ]
+    for nm, fn, second, mk, statics in shapey:
+        for n in statics:
+            add(Prog(f"{nm}_static{n}", "scan", fn, [((n,), f32), (tuple(second.shape), f32)], [(xs_of(n), second)],
+                     mk(n), steer=lambda a: "len=%d" % len(a[0])))
+        add(Prog(f"{nm}_sym", "scan", fn, [(("L",), f32), (tuple(second.shape), f32)], [(xs_of(n), second) for n in lens],
+                 mk(None), steer=lambda a: "len=%d" % len(a[0])))
+
+    def fori_scatter(buf):              # 5 trips, scatter updates of extent 2 and an indexed set
+        def body(i, c):
+            c = c.at[jnp.array([0, 2])].add(jnp.stack([i.astype(jnp.float32), 1.0]))
+            return c.at[i % 4].set(c[3] + 1.0)
+        return lax.fori_loop(0, 5, body, buf)
+    add(Prog("fori_scatter_0_5", "fori", fori_scatter, [((4,), f32)], [(_a(np.zeros(4)),), (_a([1, 2, 3, 4]),)], [fori_x(0, 5, 1)],
+             steer=lambda a: "trips=5"))
+
+    def fori_concat(v):                 # 3 trips, concatenate / reduction over extent 4
+        return lax.fori_loop(2, 5, lambda i, c: jnp.concatenate([c[1:], jnp.stack([jnp.sum(c) + i.astype(jnp.float32)])]), v)
+    add(Prog("fori_concat_2_5", "fori", fori_concat, [((4,), f32)], [(_a([1, 2, 3, 4]),)], [fori_x(2, 5, 1)], steer=lambda a: "trips=3"))
+
+    def while_scatter(buf, lim):        # data-dependent exit; scatter updates extent 2, update slice extent 2
+        def b(s):
+            i, c = s
+            c = c.at[jnp.array([0, 2])].add(jnp.stack([1.0, 2.0]))
+            c = lax.dynamic_update_slice(c, jnp.stack([c[0], c[2]]) * 0.5, (jnp.int32(2),))
+            return (i + 1, c)
+        return lax.while_loop(lambda s: jnp.logical_and(s[0] < 9, jnp.sum(s[1]) < lim), b, (jnp.int32(0), buf))
+
+    def ws_trips(a):
+        c, lim, n = np.asarray(a[0], np.float64).copy(), float(a[1]), 0
+        while n < 9 and c.sum() < lim:
+            c[0] += 1.0
+            c[2] += 2.0
+            c[2:4] = np.array([c[0], c[2]]) * 0.5
+            n += 1
+        return "trips=%d" % n
+    add(Prog("while_scatter", "while", while_scatter, [((4,), f32), ((), f32)],
+             [(_a(np.zeros(4)), _a(l)) for l in (0.0, 0.5, 4.0, 9.0, 1e9)], [while_x(2, 2)], steer=ws_trips))
+
     # ---- constructs the converter cannot represent: must raise, or export correctly ------------
     def switch3(i, x):
         return lax.switch(i, [lambda a: a * 3.0, lambda a: a + 10.0, lambda a: a - 1.0], x)
@@ -642,6 +745,14 @@ def extract_tree(graph, sc=None, prefix=""):
     return out
 
 
+def _find_rec(got, path):
+    gmap = {r["path"]: r for r in got}
+    if path in gmap:
+        return gmap[path]
+    c = [g for pth, g in gmap.items() if pth.replace("/then", "").replace("/else", "") == path]
+    return c[0] if len(c) == 1 else None
+
+
 def check_against(expect, got):
     """list of discrepancies between the Coq scheme instance and the extracted parameters"""
     errs = []
@@ -857,6 +968,8 @@ def run(ctx):
     P = programs(ctx.rng, ctx.tier)
     evaluations, labels, samples = 0, set(), []
     skipped, rejected, exported_ok, recognised = [], {}, [], {}
+    n_scan_M = 0
+    known_keys = {k["key"] for k in common.load_known() if k.get("property") == "C06" and k.get("status") == "known"}
     per_kind_ok = {"while": 0, "scan": 0, "fori": 0, "cond": 0, "nest": 0}
     for name, p in P.items():
         # ---- export with the real converter
@@ -875,6 +988,7 @@ def run(ctx):
         exported_ok.append(name)
         # ---- tie S
         if not p.reject:
+            tree = None
             try:
                 tree = extract_tree(model.graph)
                 errs = check_against(p.expect, tree)
@@ -887,6 +1001,20 @@ def run(ctx):
                 detail = "scheme not recognised: " + detail
             coqs = "+".join(sorted({e["coq"] for e in p.expect}))
             ok = ctx.oblige(f"tie:S:{name}[{coqs}]", not errs, "tie", detail)
+            # explicit, body-independent obligation on EVERY scan export: the parameter `length` of
+            # scan_scheme / scan2_scheme / scan_n_scheme (Loop input 0) is len(xs) — the constant leading extent of
+            # the scanned operand, or Shape(xs_0)[0] when symbolic — and comes from nowhere else
+            for e in p.expect:
+                if not e["coq"].startswith("scan"):
+                    continue
+                r = _find_rec(tree, e["path"]) if tree is not None else None
+                want = e["M"]
+                okm = r is not None and r.get("op") == "Loop" and r.get("M") == want
+                n_scan_M += 1
+                ctx.oblige(f"tie:S:{name}:{e['path']}:trip-count-M-is-len(xs)", okm, "tie",
+                           "" if okm else "scheme not recognised: Loop trip count M " +
+                           (f"is {r.get('M')!r}" if r is not None else "could not be extracted") +
+                           f", {e['coq']} prescribes {want!r} (length of the scanned operand)")
             recognised[name] = ok
             if ok:
                 per_kind_ok[p.kind] += 1
@@ -925,9 +1053,9 @@ def run(ctx):
             labels.add((name, lab))
             if len(samples) < 400:
                 samples.append({"program": name, "input": inp_key(inp), "steering": lab, "ok": diff is None})
-            if diff is not None:
+            if diff is not None and f"{name}:{inp_key(inp)}" not in known_keys:
                 n_bad += 1
-            if diff is not None and n_bad <= 3:      # at most three replays per program
+            if diff is not None and (n_bad <= 3 or f"{name}:{inp_key(inp)}" in known_keys):   # at most three new replays per program
                 ctx.violate(f"{name}:{inp_key(inp)}",
                             f"{name} on input {inp_key(inp)} [{lab}]: exported model gives {diff}",
                             {"program": name, "inputs": inp_json(inp), "steering": lab, "tier": ctx.tier})
@@ -957,7 +1085,7 @@ def run(ctx):
         "rule": "one evaluation = one (program, input) run of onnxruntime on the real export compared with eager JAX (plus the "
                 "hand-built Loop/If runs of tie D); non-trivial/distinct = distinct (program, steering class) pairs, the class "
                 "being the trip count / length / predicate / index range computed from the input",
-        "programs": len(P), "programs_exported": len(exported_ok),
+        "programs": len(P), "programs_exported": len(exported_ok), "scan_trip_count_obligations": n_scan_M,
         "programs_scheme_recognised": sum(1 for v in recognised.values() if v),
         "skipped_not_exportable": skipped,
         "rejected_at_export": rejected,
